@@ -8,6 +8,7 @@ import (
 	"sync/atomic"
 	"testing"
 
+	"github.com/cloudflare/circl/cipher/ascon"
 	"github.com/cloudflare/circl/expander"
 	"github.com/cloudflare/circl/internal/zzverif/lib"
 	"github.com/cloudflare/circl/internal/zzverif/ref/expand"
@@ -78,5 +79,65 @@ func TestVerifExpanderShared(t *testing.T) {
 		close(start)
 		wg.Wait()
 		lib.CaseS("expander-shared", sb.name)
+	}
+}
+
+// TestVerifAsconShared: decryption inverts encryption (and a wrong tag is
+// refused) for every call, also when one Cipher value serves 8 goroutines at
+// once, each with its own nonces and messages.
+func TestVerifAsconShared(t *testing.T) {
+	const mon = "TestVerifAsconShared"
+	const G = 8
+	lib.Mandatory("ascon-shared:opens")
+	for _, m := range []struct {
+		name string
+		mode ascon.Mode
+		klen int
+	}{{"Ascon128", ascon.Ascon128, 16}, {"Ascon128a", ascon.Ascon128a, 16}, {"Ascon80pq", ascon.Ascon80pq, 20}} {
+		key := lib.NewRng("c15/ascon-shared/key/"+m.name, 0).Bytes(m.klen)
+		c, err := ascon.New(key, m.mode)
+		if err != nil {
+			t.Fatal(err)
+		}
+		rounds := lib.Scale(2000, 20000)
+		var wg sync.WaitGroup
+		var reported int32
+		start := make(chan struct{})
+		for g := 0; g < G; g++ {
+			wg.Add(1)
+			go func(g int) {
+				defer wg.Done()
+				r := lib.NewRng("c15/ascon-shared/"+m.name, g)
+				<-start
+				for i := 0; i < rounds; i++ {
+					nonce, pt, ad := r.Bytes(16), r.Bytes(r.Intn(48)), r.Bytes(r.Intn(20))
+					var ct, back []byte
+					var oerr, ferr error
+					pn := lib.Try("ascon-shared:"+m.name, nil, func() {
+						ct = c.Seal(nil, nonce, pt, ad)
+						back, oerr = c.Open(nil, nonce, ct, ad)
+						bad := lib.Clone(ct)
+						bad[len(bad)-1-r.Intn(16)] ^= 1 << uint(r.Intn(8))
+						_, ferr = c.Open(nil, nonce, bad, ad)
+					})
+					lib.Count("ascon-shared:opens")
+					what := ""
+					switch {
+					case pn != nil:
+						what = "panic: " + pn.Value
+					case oerr != nil || !lib.Eq(back, pt):
+						what = "a genuine ciphertext is refused or opens to another plaintext"
+					case ferr == nil:
+						what = "a ciphertext with an altered tag is accepted"
+					}
+					if what != "" && atomic.AddInt32(&reported, 1) == 1 {
+						lib.Violation("C15:tamper-or-roundtrip:ascon."+m.name+":shared-by-goroutines", mon, lib.D("what", what, "goroutines", G, "goroutine", g, "call", i))
+					}
+				}
+			}(g)
+		}
+		close(start)
+		wg.Wait()
+		lib.CaseS("ascon-shared", m.name)
 	}
 }
